@@ -12,3 +12,12 @@ package ast
 //@   loop 2 iter [C14] len(content.Blocks) == old(len(content.Blocks)) + 1 && content.Blocks[len(content.Blocks)-1].Range == block.Range()
 //@   ensures [C14] implies(typeis(body, "*hclsyntax.Body"), content.RangePtr != nil)
 //@   ensures [C14] implies(!typeis(body, "*hclsyntax.Body") && bodySchema != nil, decodedJSON && content.Attributes == partial.Attributes)
+
+// ---- every element is examined: the loops below have no break and no return inside, i.e. they are left only
+// ---- when their range is exhausted (generated from the control-flow graph of the pinned tree with
+// ---- `govc loops`; tagged with the properties anchored in the function's file). An added early exit in a
+// ---- collecting loop silently drops the remaining elements.
+//@ loop-complete ast.DecodeBody 1 C02,C14
+//@ loop-complete ast.DecodeBody 2 C02,C14
+//@ loop-complete ast.DecodeBody 3 C02,C14
+//@ loop-complete ast.DecodeBody 4 C02,C14
